@@ -86,3 +86,124 @@ example :
       [([⟨.line, ['a']⟩], ['x']), ([], ['+']), ([⟨.block, ['b']⟩], ['y'])] := by decide
 
 end SamVerif.CommentQueue
+
+/-! ## Round trip *with comments* on the fragment (`roundtrip_with_comments`, partial)
+
+After /repo commit "attach additional preceding comments to the sub-expression that owns the first
+token" the parser puts every comment written in front of an expression on the sub-expression that owns
+the following token; in the fragment these are the opaque atoms. A tree in this normal form is a
+`Fmt.Expr` whose atom indices point into a table of (comments, atom) pairs. Printing emits the comments
+of an atom directly in front of it (`create_opt_preceding_comment_doc`); reading the text back, the
+queue delivers them with that atom again (`queue_delivers_with_next_token`, here `decorateG`). -/
+namespace SamVerif.Fmt
+open SamVerif.CommentQueue (Comment)
+
+/-- Token stream with comments, as the lexer produces it. -/
+inductive CTok where
+  | comment (c : Comment)
+  | tok (t : Tok)
+  deriving DecidableEq, Repr
+
+/-- What the printer writes for a sequence of tokens with their preceding comments. -/
+def undecorate : List (List Comment × Tok) → List CTok
+  | [] => []
+  | (cs, t) :: r => cs.map .comment ++ .tok t :: undecorate r
+
+/-- The parser's view (same recursion as `CommentQueue.decorate`, generic token type). -/
+def decorateG : List CTok → List Comment → List (List Comment × Tok)
+  | [], _ => []
+  | .comment c :: r, acc => decorateG r (acc ++ [c])
+  | .tok t :: r, acc => (acc, t) :: decorateG r []
+
+theorem decorateG_comments (cs : List Comment) (rest : List CTok) (acc : List Comment) :
+    decorateG (cs.map .comment ++ rest) acc = decorateG rest (acc ++ cs) := by
+  induction cs generalizing acc with
+  | nil => simp
+  | cons c cs ih => simp [decorateG, ih, List.append_assoc]
+
+/-- Reading back what was written gives the same tokens with the same comments. -/
+theorem decorate_undecorate (ps : List (List Comment × Tok)) : decorateG (undecorate ps) [] = ps := by
+  induction ps with
+  | nil => rfl
+  | cons p r ih =>
+    obtain ⟨cs, t⟩ := p
+    simp [undecorate, decorateG_comments, decorateG, ih]
+
+/-- Table of the commented atoms of a tree: index `a` stands for atom `(T[a]).2` with the comments
+`(T[a]).1` in front of it. -/
+abbrev AtomTable := List (List Comment × Nat)
+
+def idxOfPair (p : List Comment × Nat) : AtomTable → Nat
+  | [] => 0
+  | q :: r => if q = p then 0 else idxOfPair p r + 1
+
+theorem idxOfPair_get (T : AtomTable) (h : T.Nodup) (a : Nat) (p : List Comment × Nat)
+    (ha : T[a]? = some p) : idxOfPair p T = a := by
+  induction T generalizing a with
+  | nil => simp at ha
+  | cons q r ih =>
+    cases a with
+    | zero => simp at ha; simp [idxOfPair, ha]
+    | succ n =>
+      simp only [List.getElem?_cons_succ] at ha
+      have hmem : p ∈ r := List.mem_of_getElem? ha
+      have hne : q ≠ p := by
+        intro he; subst he
+        exact (List.nodup_cons.mp h).1 hmem
+      simp [idxOfPair, hne, ih (List.nodup_cons.mp h).2 n ha]
+
+/-- The printer's output for one token of a normal-form tree. -/
+def decorateTok (T : AtomTable) : Tok → List Comment × Tok
+  | .atom a => match T[a]? with
+    | some p => (p.1, .atom p.2)
+    | none => ([], .atom a)
+  | t => ([], t)
+
+/-- The parser's reading of one token with the comments delivered with it. -/
+def reindexTok (T : AtomTable) : List Comment × Tok → Tok
+  | (cs, .atom n) => .atom (idxOfPair (cs, n) T)
+  | (_, t) => t
+
+/-- Every atom of the token sequence is an index into the table. -/
+def AtomsIn (T : AtomTable) (ts : List Tok) : Prop := ∀ a, Tok.atom a ∈ ts → a < T.length
+
+theorem reindex_decorate (T : AtomTable) (h : T.Nodup) (ts : List Tok) (ha : AtomsIn T ts) :
+    (ts.map (decorateTok T)).map (reindexTok T) = ts := by
+  induction ts with
+  | nil => rfl
+  | cons t r ih =>
+    have hr : AtomsIn T r := fun a hm => ha a (List.mem_cons_of_mem _ hm)
+    simp only [List.map_cons, ih hr, List.cons.injEq, and_true]
+    cases t with
+    | atom a =>
+      have hlt : a < T.length := ha a (by simp)
+      have hg : T[a]? = some T[a] := List.getElem?_eq_getElem hlt
+      simp only [decorateTok, hg, reindexTok]
+      rw [idxOfPair_get T h a T[a] hg]
+    | _ => rfl
+
+/-- `format`: print the tree, every atom preceded by its comments. -/
+def formatC (T : AtomTable) (e : Expr) : List CTok := undecorate ((printE e).map (decorateTok T))
+
+/-- `parse` of a text with comments: the queue attaches comments to the following token, atoms are
+identified with their comments, then the C08 parser model runs. -/
+def parseC (T : AtomTable) (s : List CTok) : Option Expr :=
+  parseE ((decorateG s []).map (reindexTok T))
+
+/-- **Round trip with comments** (partial: C08's side condition `RT`; comments on atoms only). -/
+theorem roundtrip_with_comments_partial (T : AtomTable) (hT : T.Nodup) (e : Expr) (h : RT e = true)
+    (ha : AtomsIn T (printE e)) : parseC T (formatC T e) = some e := by
+  unfold parseC formatC
+  rw [decorate_undecorate, reindex_decorate T hT _ ha, roundtrip_expr_partial e h]
+
+/-- **Formatting the formatter's output returns it unchanged, comments included** (token level). -/
+theorem format_idempotent_with_comments_partial (T : AtomTable) (hT : T.Nodup) (e : Expr)
+    (h : RT e = true) (ha : AtomsIn T (printE e)) :
+    (parseC T (formatC T e)).map (formatC T) = some (formatC T e) := by
+  rw [roundtrip_with_comments_partial T hT e h ha]; rfl
+
+example :
+    formatC [([⟨.block, ['c']⟩], 7), ([], 8)] (.binary .plus (.atom 0) (.atom 1)) =
+      [.comment ⟨.block, ['c']⟩, .tok (.atom 7), .tok (.op .plus), .tok (.atom 8)] := by decide
+
+end SamVerif.Fmt
